@@ -2,6 +2,11 @@ NOTES = ('Bounded-exhaustive model checking of the real implementation; see DESI
          'Known genuine defects are listed in known_findings.json.')
 NOT_APPLICABLE = {}
 CHECKS = {
+ 'C19': dict(engine='E3', design_ref='4/C19',
+    technique='exhaustive enumeration (full product of model x flow x coefficient letters x geometry x flag patterns x orders; Mach-route letters; bays with and without stiffener) on the real calc_kA/calc_cA against the piston-theory bilinear forms assembled from exact 1-D integrals',
+    text='For every element of the product the finalised aerodynamic stiffness matrix is compared with beta*Int(w_A dw_B/dflow) - gamma*Int(w_A w_B) (w restrained on the flow edges), the damping matrix with -i*aeromu*Int(w_A w_B); '
+         'support on out-of-plane amplitudes only, linearity in the coefficients (also with free flow edges, negative control), flow-y == flow-x on the axis-exchanged panel, Mach-route == explicit coefficients, bay-level matrices.',
+    note='conical panels are not supported by calc_kA (NotImplementedError) and are outside the statement; bay checks call calc_k0 first so that call-history effects stay with C20'),
  'C03': dict(engine='E3', design_ref='4/C03',
     technique='exhaustive enumeration: configuration lattice (<=k deviations) x load triples for the constant-load path, full product of model x laminate x flags x orders x state x Gauss order x laminate-table form for the state-based path; real Panel.calc_kG0 vs reference work Hessian',
     text='Constant-load matrices are compared entry-wise with the Hessian of the pre-stress work (exact 1-D tables), only out-of-plane amplitudes may be touched, symmetry, '
